@@ -7,6 +7,8 @@
 (* A tensor is [sizes, types]; an index expression is a sequence over       *)
 (*   "i"  integer            "s"  full slice        "s1" slice of length 1  *)
 (*   "n"  None               "e"  Ellipsis                                  *)
+(*   "in" negative integer (numpy scalar)   "s2" [::2]   "sr" [::-1]       *)
+(*   "a0" 0-d integer array                                                 *)
 (*   "a1" 1-D integer array (shape <<2>>)   "a2" 2-D integer array <<2,2>>  *)
 (*   "b1" 1-D boolean mask with 2 True      "b2" 2-D boolean mask, 2 True   *)
 (* The module transcribes numpy's rules (validated against numpy itself by  *)
@@ -26,9 +28,10 @@ CONSTANTS MaxLen, MaxRank, DoDump
 VARIABLES pc, tens, idx, res
 vars == <<pc, tens, idx, res>>
 
-Items == {"i", "s", "s1", "n", "e", "a1", "a2", "b1", "b2"}
+Items == {"i", "in", "s", "s1", "s2", "sr", "n", "e", "a0", "a1", "a2", "b1", "b2"}
+IsInt(x) == x \in {"i", "in"}           \* "in": a negative integer given as a numpy integer scalar
 Sizes == <<2, 3, 4, 5>>
-IsArr(x) == x \in {"a1", "a2", "b1", "b2"}
+IsArr(x) == x \in {"a0", "a1", "a2", "b1", "b2"}      \* "a0": a 0-d integer array (an advanced index with the empty shape)
 Consumes(x) == IF x \in {"n", "e"} THEN 0 ELSE IF x = "b2" THEN 2 ELSE 1
 RECURSIVE SumConsumes(_, _)
 SumConsumes(ix, k) == IF k > Len(ix) THEN 0 ELSE Consumes(ix[k]) + SumConsumes(ix, k + 1)
@@ -49,12 +52,12 @@ Expand(ix, rank) ==
      ELSE tagged \o pad
 
 HasArr(ix) == \E k \in DOMAIN ix : IsArr(ix[k])
-IsAdv(ix, x) == IsArr(x) \/ (x = "i" /\ HasArr(ix))
+IsAdv(ix, x) == IsArr(x) \/ (IsInt(x) /\ HasArr(ix))
 AdvPositions(ix) == {k \in DOMAIN ix : IsAdv(ix, ix[k])}
 Adjacent(ix) == LET P == AdvPositions(ix) IN P = {} \/ \A k \in P : (\A m \in P : k <= m) \/ (k - 1) \in P
 \* broadcast shape of the advanced block
 BlockShape(ix) == IF \E k \in DOMAIN ix : ix[k] = "a2" THEN <<2, 2>>
-                  ELSE IF HasArr(ix) THEN <<2>> ELSE <<>>
+                  ELSE IF \E k \in DOMAIN ix : ix[k] \in {"a1", "b1", "b2"} THEN <<2>> ELSE <<>>
 
 \* walk the expanded index: each step yields the result axes it contributes as <<size, provenance>> (provenance 0 = none)
 \* and advances the axis pointer; advanced items contribute nothing here (the block is placed afterwards)
@@ -63,9 +66,10 @@ Walk(ex, k, ax, ix, sizes) ==
   IF k > Len(ex) THEN <<>>
   ELSE LET x == ex[k][1] IN
        IF x = "n" THEN << <<1, 0, k>> >> \o Walk(ex, k + 1, ax, ix, sizes)
-       ELSE IF x = "s" THEN << <<sizes[ax], ax, k>> >> \o Walk(ex, k + 1, ax + 1, ix, sizes)
+       ELSE IF x \in {"s", "sr"} THEN << <<sizes[ax], ax, k>> >> \o Walk(ex, k + 1, ax + 1, ix, sizes)      \* "sr" = [::-1]
+       ELSE IF x = "s2" THEN << <<(sizes[ax] + 1) \div 2, ax, k>> >> \o Walk(ex, k + 1, ax + 1, ix, sizes)  \* [::2]
        ELSE IF x = "s1" THEN << <<1, ax, k>> >> \o Walk(ex, k + 1, ax + 1, ix, sizes)
-       ELSE IF x = "i" /\ ~HasArr(ix) THEN Walk(ex, k + 1, ax + 1, ix, sizes)
+       ELSE IF IsInt(x) /\ ~HasArr(ix) THEN Walk(ex, k + 1, ax + 1, ix, sizes)
        ELSE \* advanced (array, or integer next to an array): marks its place with size -1
             << <<-1, 0, k>> >> \o Walk(ex, k + 1, ax + Consumes(x), ix, sizes)
 
@@ -108,14 +112,14 @@ TypesFollowProvenance == Done => \A a \in DOMAIN res.prov :
 \* rank bookkeeping: result rank = basic axes kept + None axes + block rank
 RankLaw == Done =>
    LET nNone == Cardinality({k \in DOMAIN idx : idx[k] = "n"})
-       nInt == Cardinality({k \in DOMAIN idx : idx[k] = "i"})
+       nInt == Cardinality({k \in DOMAIN idx : IsInt(idx[k])})
        nArrAxes == SumConsumes(SelectSeq(idx, IsArr), 1)
        removed == IF HasArr(idx) THEN nInt + nArrAxes ELSE nInt
    IN Len(res.shape) = Len(tens.sizes) - removed + nNone + Len(BlockShape(idx))
 
 Stratum ==
   IF ~HasArr(idx) THEN (IF \E k \in DOMAIN idx : idx[k] = "e" THEN "basic/ellipsis" ELSE "basic")
-  ELSE IF \E k \in DOMAIN idx : idx[k] = "i" THEN (IF Adjacent(idx) THEN "int+array/adjacent" ELSE "int+array/separated")
+  ELSE IF \E k \in DOMAIN idx : IsInt(idx[k]) THEN (IF Adjacent(idx) THEN "int+array/adjacent" ELSE "int+array/separated")
   ELSE IF \E k \in DOMAIN idx : idx[k] = "b2" THEN "bool-2d"
   ELSE IF Adjacent(idx) THEN "adv-adjacent" ELSE "adv-separated"
 Dump == (Done /\ DoDump) => PrintT(ToJson([sizes |-> tens.sizes, types |-> tens.types, ix |-> idx, r |-> res, s |-> Stratum]))
